@@ -256,6 +256,12 @@ class TileSys:
         self.env = SlidingTilePuzzle(generator=RandomWalkGenerator(grid_size=g, num_random_moves=mv), time_limit=self.tl)
         self.step = jax.jit(self.env.step)
         self.reset = jax.jit(self.env.reset)
+        # the same puzzle under the sparse reward: its reward is the library's second "solved test" (1 iff the move
+        # produced the goal configuration)
+        from jumanji.environments.logic.sliding_tile_puzzle.reward import SparseRewardFn
+
+        self.sparse_step = jax.jit(SlidingTilePuzzle(generator=RandomWalkGenerator(grid_size=g, num_random_moves=mv), time_limit=self.tl,
+                                                     reward_fn=SparseRewardFn()).step)
         self.name = "SlidingTilePuzzle"
         self.goal = (np.arange(1, g * g + 1) % (g * g)).reshape(g, g)
 
@@ -325,6 +331,12 @@ class TileRun:
                 self.fail("goal_test", "done_disagrees_with_goal_test", f"{where}: action {a}: LAST={last} but puzzle == goal is {solved}; puzzle {want.tolist()}")
             if solved:
                 self.stats.probe("solved_state_visited")
+            _, sts = t.sparse_step(state, jnp.asarray(a, dtype=jnp.int32))
+            sr = float(np.asarray(sts.reward))
+            if (sr == 1.0) != solved or sr not in (0.0, 1.0):
+                self.fail("goal_test", "sparse_reward_disagrees_with_goal_test", f"{where}: action {a}: sparse reward {sr} but the move "
+                          f"{'produced' if solved else 'did not produce'} the goal configuration; puzzle after the move {want.tolist()}")
+            self.stats.check("sparse_solved_tests")
             if not tile_solvable(got, t.goal):
                 self.fail("solvability", "state_not_reachable_from_goal", f"{where}: puzzle {got.tolist()} fails the parity test")
             state, p = ns, want
